@@ -5,6 +5,7 @@ import (
 	"errors"
 	"sort"
 	"strings"
+	"sync"
 
 	pb "go.etcd.io/etcd/api/v3/etcdserverpb"
 	"go.etcd.io/etcd/api/v3/mvccpb"
@@ -61,6 +62,17 @@ type vsymEtcd struct {
 	onOp     func(op, key string) // scheduling point / fault hook; returning is "proceed"
 	failNext func(op, key string) bool
 	log      []string
+	mu       sync.Mutex // native runs only: the code under test calls the model from several goroutines
+}
+
+// lock serialises the model's operations in native runs (replay, validation). Under the executor
+// every model operation already runs without preemption, and no lock operation is added.
+func (e *vsymEtcd) lock() func() {
+	if vsym_Symbolic() {
+		return func() {}
+	}
+	e.mu.Lock()
+	return e.mu.Unlock
 }
 
 func newVsymEtcd() *vsymEtcd {
@@ -84,7 +96,9 @@ type vsymEtcdFacade struct {
 }
 
 func (e *vsymEtcd) hook(op, key string) error {
+	un := e.lock()
 	e.log = append(e.log, op+":"+key)
+	un()
 	if e.onOp != nil {
 		e.onOp(op, key)
 	}
@@ -181,6 +195,7 @@ func (f *vsymEtcdFacade) Put(ctx context.Context, key, val string, opts ...clien
 	if err := f.e.hook("put", key); err != nil {
 		return nil, err
 	}
+	defer f.e.lock()()
 	op := clientv3.OpPut(key, val, opts...)
 	lease := f.leaseFor(op)
 	if lease != 0 {
@@ -196,6 +211,7 @@ func (f *vsymEtcdFacade) Get(ctx context.Context, key string, opts ...clientv3.O
 	if err := f.e.hook("get", key); err != nil {
 		return nil, err
 	}
+	defer f.e.lock()()
 	op := clientv3.OpGet(key, opts...)
 	return (*clientv3.GetResponse)(f.e.rangeResp(key, string(op.RangeBytes()))), nil
 }
@@ -204,6 +220,7 @@ func (f *vsymEtcdFacade) Delete(ctx context.Context, key string, opts ...clientv
 	if err := f.e.hook("delete", key); err != nil {
 		return nil, err
 	}
+	defer f.e.lock()()
 	op := clientv3.OpDelete(key, opts...)
 	n := f.e.del(key, string(op.RangeBytes()))
 	return &clientv3.DeleteResponse{Header: f.e.header(), Deleted: n}, nil
@@ -225,9 +242,15 @@ type vsymEtcdTxn struct {
 	then, els_ []clientv3.Op
 }
 
-func (t *vsymEtcdTxn) If(cs ...clientv3.Cmp) clientv3.Txn   { t.cmps = append(t.cmps, cs...); return t }
-func (t *vsymEtcdTxn) Then(ops ...clientv3.Op) clientv3.Txn { t.then = append(t.then, ops...); return t }
-func (t *vsymEtcdTxn) Else(ops ...clientv3.Op) clientv3.Txn { t.els_ = append(t.els_, ops...); return t }
+func (t *vsymEtcdTxn) If(cs ...clientv3.Cmp) clientv3.Txn { t.cmps = append(t.cmps, cs...); return t }
+func (t *vsymEtcdTxn) Then(ops ...clientv3.Op) clientv3.Txn {
+	t.then = append(t.then, ops...)
+	return t
+}
+func (t *vsymEtcdTxn) Else(ops ...clientv3.Op) clientv3.Txn {
+	t.els_ = append(t.els_, ops...)
+	return t
+}
 
 func (e *vsymEtcd) holds(c clientv3.Cmp) bool {
 	en := e.data[string(c.Key)]
@@ -287,6 +310,7 @@ func (t *vsymEtcdTxn) Commit() (*clientv3.TxnResponse, error) {
 	if err := e.hook("txn", key); err != nil {
 		return nil, err
 	}
+	defer e.lock()()
 	ok := true
 	for _, c := range t.cmps {
 		if !e.holds(c) {
@@ -328,6 +352,7 @@ func (f *vsymEtcdFacade) Watch(ctx context.Context, key string, opts ...clientv3
 	op := clientv3.OpGet(key, opts...)
 	w := &vsymEtcdWatch{key: key, end: string(op.RangeBytes()), ch: make(chan clientv3.WatchResponse, 64), ctx: ctx, startRev: op.Rev()}
 	_ = e.hook("watch", key)
+	defer e.lock()()
 	if w.startRev > 0 {
 		// replay history from the requested revision
 		for i, ev := range e.history {
@@ -342,6 +367,7 @@ func (f *vsymEtcdFacade) Watch(ctx context.Context, key string, opts ...clientv3
 
 // interrupt closes every open watch stream (etcd leader change, compaction, network blip).
 func (e *vsymEtcd) interruptWatches() {
+	defer e.lock()()
 	for _, w := range e.watches {
 		if !w.closed {
 			w.closed = true
@@ -361,6 +387,7 @@ func (f *vsymEtcdFacade) Grant(ctx context.Context, ttl int64) (*clientv3.LeaseG
 	if err := f.e.hook("grant", f.who); err != nil {
 		return nil, err
 	}
+	defer f.e.lock()()
 	f.e.nextID++
 	id := clientv3.LeaseID(1000 + f.e.nextID)
 	f.e.leases[id] = &vsymEtcdLease{id: id, alive: true}
@@ -371,6 +398,11 @@ func (f *vsymEtcdFacade) Grant(ctx context.Context, ttl int64) (*clientv3.LeaseG
 // expire ends a lease: its keys are deleted (watchers see the deletes) and its keep-alive
 // streams close, which is how a session learns that it is dead.
 func (e *vsymEtcd) expire(id clientv3.LeaseID) {
+	defer e.lock()()
+	e.expireLocked(id)
+}
+
+func (e *vsymEtcd) expireLocked(id clientv3.LeaseID) {
 	l, ok := e.leases[id]
 	if !ok || !l.alive {
 		return
@@ -396,7 +428,8 @@ func (f *vsymEtcdFacade) Revoke(ctx context.Context, id clientv3.LeaseID) (*clie
 	if err := f.e.hook("revoke", f.who); err != nil {
 		return nil, err
 	}
-	f.e.expire(id)
+	defer f.e.lock()()
+	f.e.expireLocked(id)
 	return &clientv3.LeaseRevokeResponse{Header: f.e.header()}, nil
 }
 
@@ -409,6 +442,7 @@ func (f *vsymEtcdFacade) Leases(ctx context.Context) (*clientv3.LeaseLeasesRespo
 }
 
 func (f *vsymEtcdFacade) KeepAlive(ctx context.Context, id clientv3.LeaseID) (<-chan *clientv3.LeaseKeepAliveResponse, error) {
+	defer f.e.lock()()
 	l, ok := f.e.leases[id]
 	if !ok || !l.alive {
 		return nil, errors.New("etcdserver: requested lease not found")
@@ -429,6 +463,7 @@ func (f *vsymEtcdFacade) KeepAliveOnce(ctx context.Context, id clientv3.LeaseID)
 
 // snapshotOf returns key -> value of everything under prefix (for assertions).
 func (e *vsymEtcd) under(prefix string) map[string]string {
+	defer e.lock()()
 	out := map[string]string{}
 	for k, en := range e.data {
 		if strings.HasPrefix(k, prefix) {
